@@ -93,7 +93,7 @@ theorem arith_broadcast_undefined (F : Fns α) (f : α → α → α) (n : Strin
 theorem definedValues_eq (u : USet α) : definedValues u = u.vals.filterMap (·.2) := rfl
 
 theorem scalarFn_empty (F : Fns α) (t : TT) (u : USet α) (h : definedValues u = []) :
-    scalarFn F t u = .ok USet.empty := by simp [scalarFn, h]
+    scalarFn F t u = .ok (USet.scalar F none) := by simp [scalarFn, h]
 
 theorem scalarFn_sum (F : Fns α) (u : USet α) (x : α) (xs : List α) (h : definedValues u = x :: xs) :
     scalarFn F .scalar_func_sum u = .ok (USet.scalar F (some ((x :: xs).foldl F.add (F.ofNat 0)))) := by
